@@ -446,6 +446,14 @@ Definition btc_sent_ok (n sent : nat) (valids : list bool) : bool :=
   | _ => Nat.eqb (length valids) n && forallb (fun b => b) valids
   end.
 
+(* THE JUDGE of one complete execution of the BTC executor by the relayers of a committee: per relayer
+   (transactions that reached its node, per-input validity).  Whatever any relayer broadcasts is fully
+   signed; must_sign - the execution follows a refresh of the committee's shares ("the new committee
+   can sign"): the transfer is signed and broadcast by at least one relayer. *)
+Definition btc_exec_ok (must_sign : bool) (n : nat) (relayers : list (nat * list bool)) : bool :=
+  forallb (fun r => btc_sent_ok n (fst r) (snd r)) relayers
+  && (negb must_sign || existsb (fun r => negb (Nat.eqb (fst r) 0)) relayers).
+
 Definition results_in_range (n : nat) (rs : list (option nat)) : bool :=
   forallb (fun r => match r with Some id => Nat.ltb id n | None => true end) rs.
 
